@@ -1128,6 +1128,10 @@ pub fn run_firer(ctx: &Arc<RunCtx>, pusher: bool) {
                 // thread 0 creates the pipe and reads its output
                 while !ctx.pipes[p].consumer_waiting.load(ORD) && !ctx.pipes[p].out_ended.load(ORD) && ctx.pipes[p].stream_dropped.load(ORD) == 0 && ctx.done_mask.load(Ordering::SeqCst) & 1 == 0 { thread::park(); }
             }
+            FAct::WaitThread0Done => {
+                let _b = ctx.blocked(NO_OP, PH_FIREWAIT);
+                while ctx.done_mask.load(Ordering::SeqCst) & 1 == 0 { thread::park(); }
+            }
             FAct::WaitDropped(p) => {
                 let _b = ctx.blocked(crate::pipes::PIPE_BASE + p, PH_FIREWAIT);
                 while ctx.pipes[p].stream_dropped.load(ORD) == 0 && ctx.threads_done.load(Ordering::SeqCst) < ctx.prog.threads.len() { thread::park(); }
@@ -1146,7 +1150,7 @@ pub struct Handles {
 
 fn prog_has_waits(prog: &Program) -> bool {
     let t = |a: &TAct| matches!(a, TAct::WaitStart(_) | TAct::WaitRet(_) | TAct::WaitInv(_) | TAct::WaitResolved(_) | TAct::HandResumer(_));
-    let f = |a: &FAct| matches!(a, FAct::WaitRet(_) | FAct::WaitStart(_) | FAct::Resume(..) | FAct::WaitDropped(_) | FAct::WaitConsumerWaiting(_));
+    let f = |a: &FAct| matches!(a, FAct::WaitRet(_) | FAct::WaitStart(_) | FAct::Resume(..) | FAct::WaitDropped(_) | FAct::WaitConsumerWaiting(_) | FAct::WaitThread0Done);
     prog.threads.iter().flatten().any(t) || prog.phases.iter().flat_map(|p| p.threads.iter().flatten()).any(t) || prog.fire.iter().any(f) || prog.pusher.iter().any(f)
 }
 
